@@ -326,9 +326,11 @@ PLAN["C20"] = {
     "level_text": "Exploration: dozens of generated request histories per mode per run, each on a fresh server; exact equality of per-label totals, in-flight return to zero, availability under load and monotonicity are asserted.",
     "level_note": "timing enters only through polling bounds (20 s / 5 s) far above measured latencies; a bound being hit without a completed comparison is reported as a violation only for availability",
     "quick": [{"test": "TestC20_Deletion", "checks": 30, "timeout": 900},
-              {"test": "TestC20_Insertion", "checks": 20, "timeout": 900}],
+              {"test": "TestC20_Insertion", "checks": 20, "timeout": 900},
+              {"test": "TestC20_Linger", "checks": 1, "timeout": 900}],
     "thorough": [{"test": "TestC20_Deletion", "checks": 100, "shards": 5, "timeout": 3000},
-                 {"test": "TestC20_Insertion", "checks": 100, "shards": 5, "timeout": 3000}],
+                 {"test": "TestC20_Insertion", "checks": 100, "shards": 5, "timeout": 3000},
+                 {"test": "TestC20_Linger", "checks": 2, "shards": 2, "timeout": 3000}],
 }
 
 PLAN["C13"] = {
